@@ -308,6 +308,34 @@ def r3(k: Kit) -> None:
                 rep.ok('C05.R3', key(fi, 'return ' + norm(v)),
                        'result is the verification result', k.loc(fi, n))
                 continue
+            # the verdict collected in a variable: each assignment of it
+            # is a verification result, False, or - for a key query only -
+            # True
+            if isinstance(v, ast.Name) and leaves and not free and all(
+                    is_call(l, 'verify') or (isinstance(l, ast.Constant) and
+                                             l.value in (False, True))
+                    for l in leaves) and fi.name == 'validate_public_key':
+                bad_def = None
+                for d in g.nodes:
+                    a = d.ast
+                    if d.kind == 'stmt' and isinstance(a, ast.Assign) and \
+                            dotted(a.targets[0]) == v.id and \
+                            isinstance(a.value, ast.Constant) and \
+                            a.value.value is True:
+                        w3 = g.guarded_by(d.id, lambda x: False if
+                                          x.kind == 'atom' and
+                                          dotted(x.ast) == 'msg' else None)
+                        if w3 is not None:
+                            bad_def = (d, w3)
+                rep.check(bad_def is None, 'C05.R3',
+                          key(fi, 'return ' + norm(v)),
+                          'the verdict is a verification result, False, or '
+                          'True for a key query (no signed data)',
+                          'the verdict can be True although request data is '
+                          'present and was not verified',
+                          k.loc(fi, bad_def[0] if bad_def else n),
+                          g.describe_path(bad_def[1]) if bad_def else None)
+                continue
             w = g.guarded_by(n.id, vatom)
             if w is None:
                 rep.ok('C05.R3', key(fi, 'return ' + norm(v)),
@@ -678,11 +706,15 @@ def r5(k: Kit) -> None:
     for f in k.idx.iter_funcs(['connection']):
         for x in walk_shallow(f.node):
             if isinstance(x, ast.Assign):
-                for t in x.targets:
+                tgts = [e for t in x.targets for e in (
+                    t.elts if isinstance(t, ast.Tuple) else [t])]
+                for t in tgts:
                     if dotted(t) in ('self._key_options',
                                      'self._cert_options'):
+                        # validate_public_key only puts back what it saved
+                        # on entry (table C05.R9 decides when)
                         okc = f.name.startswith('_validate_') or \
-                            f.name == '__init__'
+                            f.name in ('__init__', 'validate_public_key')
                         rep.check(okc, 'C05.R5',
                                   key(f, 'store ' + dotted(t)),
                                   'restrictions captured where the '
@@ -917,6 +949,89 @@ def r8(k: Kit) -> None:
     rep.floor('C05.R8', 'try_next_auth sites in iterating methods', n, 4)
 
 
+def r9(k: Kit) -> None:
+    """Restrictions come from the credential that was accepted."""
+    from ..absint import evaluate, Obj, NotEvaluable
+    rep = k.rep
+    idx = k.idx
+    rep.rule('C05.R9', 'SSHServerConnection.validate_public_key evaluated '
+             'over (key/certificate acceptable?, request signed?, signature '
+             'verifies?), with the validators modelled as what they are - '
+             'functions that overwrite _key_options / _cert_options: when '
+             'the call returns, those fields hold the new values only if a '
+             'signed request verified; a query or a failed signature leaves '
+             'the previous ones (the restrictions enforced are those of the '
+             'accepted credential)')
+    fi = k.func('connection.SSHServerConnection.validate_public_key')
+    body = [st for st in fi.node.body if not (
+        isinstance(st, ast.Expr) and isinstance(st.value, ast.Constant))]
+    bad = None
+    n = 0
+    for via in ('cert', 'key', 'none'):
+        for signed in (False, True):
+            for verifies in (False, True):
+                if not signed and verifies:
+                    continue
+                n += 1
+
+                def on_call(nm, args, env, via=via, verifies=verifies):
+                    if nm == 'self._validate_client_certificate':
+                        if via == 'cert':
+                            env['self._key_options'] = 'NEW-K'
+                            env['self._cert_options'] = 'NEW-C'
+                            return Obj('KEY')
+                        return None
+                    if nm == 'self._validate_client_public_key':
+                        if via == 'key':
+                            env['self._key_options'] = 'NEW-K'
+                            return Obj('KEY')
+                        return None
+                    if nm == 'KEY.verify':
+                        return verifies
+                    return Obj('x')
+                val = {'self._key_options': 'OLD-K',
+                       'self._cert_options': 'OLD-C',
+                       'self._session_id': b'sid'}
+                try:
+                    o = evaluate(idx, fi.module, body, val,
+                                 {'username': 'u', 'key_data': b'k',
+                                  'msg': b'm' if signed else b'',
+                                  'signature': b's'}, on_call)
+                except NotEvaluable as exc:
+                    rep.error('C05.R9', key(fi, 'not-evaluable'), str(exc))
+                    return
+                accepted = via != 'none' and signed and verifies
+                want_ret = via != 'none' and (verifies if signed else True)
+                ko = o.env.get('self._key_options', 'OLD-K')
+                co = o.env.get('self._cert_options', 'OLD-C')
+                if o.kind != 'return' or bool(o.value) != want_ret:
+                    bad = bad or (f'{via}/signed={signed}/verifies='
+                                  f'{verifies}: returns {o.value!r}')
+                    continue
+                if accepted:
+                    okf = ko == 'NEW-K' and co == (
+                        'NEW-C' if via == 'cert' else 'OLD-C')
+                else:
+                    okf = ko == 'OLD-K' and co == 'OLD-C'
+                if not okf:
+                    bad = bad or (
+                        f'credential via {via}, '
+                        + ('signed and verified' if accepted else
+                           'only queried' if not signed else
+                           'signature does not verify') +
+                        f': afterwards key options = {ko}, certificate '
+                        f'options = {co}')
+    rep.count('eval.pubkey_option_states', n)
+    rep.check(bad is None, 'C05.R9', key(fi, 'options of the accepted '
+                                         'credential'),
+              f'{n} states: options change only for a verified signed '
+              'request', f'{bad}: the options of a key or certificate that '
+              'was merely queried (PK_OK) or failed to verify stay in force '
+              '- e.g. the force-command of somebody else\'s certificate '
+              'replaces the command= of the key that then logs in',
+              fi.loc(fi.node))
+
+
 def run(idx, rep, tier):
     k = Kit(idx, rep)
     rep.assumptions += NOT_DECIDED
@@ -928,3 +1043,4 @@ def run(idx, rep, tier):
     r6(k)
     r7(k)
     r8(k)
+    r9(k)
